@@ -12,6 +12,8 @@ import Fbr.Lemmas.OvlOps
 import Fbr.Lemmas.OvlAll
 import Fbr.Lemmas.OvlRm
 import Fbr.Lemmas.OvlCreate
+import Fbr.Lemmas.OvlRmdirA
+import Fbr.Lemmas.OvlRmdirB
 import Fbr.Thm.C10
 
 namespace Fbr.Thm.C11
@@ -44,22 +46,52 @@ theorem restart_view_eq_live_of_consistent (s : St) (hc : Consistent s) (p : Lis
   have h := import_consistent s.disk hc.roots hc.trees
   rw [consistent_view_is_merge _ h.1, h.2, consistent_view_is_merge s hc]
 
-/-- `restart_view_eq_live`, PARTIAL: after any history of covered operations (`Op.covered`: all
-    non-modifying ones and every modifying one except `link` and `rmdir`) a freshly started
-    overlay over the same directories shows, at every path, exactly what the running instance
-    shows.  Missing: histories containing link or rmdir (see `C10.view_is_merge_partial`); the
-    restart side is fully proved for those too (`restart_view_is_merge`). -/
-theorem restart_view_eq_live_partial (d : Disk) (hr : d.RootsOK) (ht : d.TreesOK) (ops : List Op)
-    (hops : ∀ op ∈ ops, op.covered = true) (p : List Name) :
-    liveView (importFs (run (importFs d) ops).disk) p = liveView (run (importFs d) ops) p := by
-  have h0 := import_consistent d hr ht
-  exact restart_view_eq_live_of_consistent _ (run_cons ops hops _ h0.1) p
+/-- `restart_view_eq_live`: after ANY history of operations (all 19 kinds, successful or failed),
+    from any initial disk whose layers are trees with directory roots, a freshly started overlay
+    over the same directories shows, at every path, exactly what the running instance shows. -/
+theorem restart_view_eq_live (d : Disk) (hr : d.RootsOK) (ht : d.TreesOK) (ops : List Op) (p : List Name) :
+    liveView (importFs (run (importFs d) ops).disk) p = liveView (run (importFs d) ops) p :=
+  restart_view_eq_live_of_consistent _ (Fbr.Thm.C10.cache_valid_after_history d hr ht ops) p
 
-/-- `deleted_stays_deleted` (unlink; PARTIAL in that rmdir is not covered): after a successful
-    unlink — of a file, symlink or special file living in the upper layer, in lower layers, or in
-    both, with or without other layers hiding or showing the name — the path is invisible on
-    disk (`merge`), in the running instance and in a freshly started one.  This is the property
-    the second `fix:` of this engine (da2e768) restored. -/
+/-- (superseded by `restart_view_eq_live`; the name is kept because DESIGN.md refers to it) -/
+theorem restart_view_eq_live_partial (d : Disk) (hr : d.RootsOK) (ht : d.TreesOK) (ops : List Op)
+    (_hops : ∀ op ∈ ops, op.covered = true) (p : List Name) :
+    liveView (importFs (run (importFs d) ops).disk) p = liveView (run (importFs d) ops) p :=
+  restart_view_eq_live d hr ht ops p
+
+/-- what "deleted" means for a path: nothing is visible there or anywhere below, on disk
+    (`merge`), in the running instance and in a freshly started one -/
+def DeletedAt (s' : St) (p : List Name) : Prop :=
+  ∀ q : List Name, merge s'.disk ((p ++ q).reverse) = .none ∧ liveView s' (p ++ q) = .none ∧
+    liveView (importFs s'.disk) (p ++ q) = .none
+
+theorem deletedAt_of_merge (s' : St) (hc' : Consistent s') (p : List Name)
+    (h : ∀ q : List Name, merge s'.disk (q ++ p.reverse) = .none) : DeletedAt s' p := by
+  intro q
+  have hm : merge s'.disk ((p ++ q).reverse) = .none := by
+    rw [List.reverse_append]; exact h q.reverse
+  refine ⟨hm, ?_, ?_⟩
+  · rw [consistent_view_is_merge s' hc', hm]
+  · rw [restart_view_eq_live_of_consistent s' hc', consistent_view_is_merge s' hc', hm]
+
+/-- `deleted_stays_deleted`: after a successful unlink (of a file, symlink or special file living
+    in the upper layer, in lower layers, or in both) or a successful rmdir (of a directory that
+    lives in the upper layer, in lower layers, or is merged from both; with upper whiteouts to
+    clear or without), after ANY history, the path and everything below it is invisible on disk
+    (`merge`), in the running instance and in a freshly started one.  For unlink this is the
+    property the second `fix:` of this engine (da2e768) restored. -/
+theorem deleted_stays_deleted (d : Disk) (hr : d.RootsOK) (ht : d.TreesOK) (ops : List Op)
+    (p : List Name) (op : Op) (hop : op = .unlink p ∨ op = .rmdir p) (r : Reply) (s' : St)
+    (h : runOp op (run (importFs d) ops) = .ok r s') : DeletedAt s' p := by
+  have hc := Fbr.Thm.C10.cache_valid_after_history d hr ht ops
+  rcases hop with rfl | rfl
+  · have h1 := (runOp_unlink_gone p _ hc).1 r s' h
+    exact deletedAt_of_merge s' h1.1 p (Fbr.Thm.C10.merge_none_below s'.disk h1.1.roots _ h1.2)
+  · obtain ⟨hm, hc'⟩ := Fbr.Thm.C10.rmdir_refines_plain_fs _ hc p r s' h
+    exact deletedAt_of_merge s' hc' p hm
+
+/-- the same from any state with a valid cache (unlink; name kept, superseded by
+    `deleted_stays_deleted`) -/
 theorem deleted_stays_deleted_partial (s : St) (hc : Consistent s) (p : List Name) (r : Reply) (s' : St)
     (h : runOp (.unlink p) s = .ok r s') :
     merge s'.disk p.reverse = .none ∧ liveView s' p = .none ∧ liveView (importFs s'.disk) p = .none := by
@@ -113,10 +145,28 @@ theorem copy_up_preserves (st : Node) (id : Nat) (L : Layer) (pp : Path) (n : Na
     simp [Layer.updFile, Layer.set, pwrite]
   · cases hmk
 
-/-- `rmdir_clears_upper_whiteouts`, one step of `empty_node_directory`: for a child that is a
-    whiteout node backed by the upper layer, the upper whiteout is deleted (`delete_whiteout`)
-    and the child leaves the forest.  (The whole of `rmdir` is not covered by the cache-validity
-    proof, see `C10.view_is_merge_partial`.) -/
+/-- `rmdir_clears_upper_whiteouts`, the whole of `empty_node_directory` as `do_rm` reaches it: for
+    a loaded directory node `p` that has an upper directory and whose children in the forest are
+    all whiteout nodes (what `count_entries_and_whiteout` has established), the loop succeeds
+    (no `delete_whiteout` fails), afterwards the upper directory has NO entry left (so the `rmdir`
+    that follows cannot answer ENOTEMPTY), the upper layer is unchanged outside that directory and
+    still a tree, the lower layers are untouched, and the forest is unchanged outside the
+    directory's subtree. -/
+theorem rmdir_clears_upper_whiteouts (s : St) (hc : Consistent s) (L : Layer) (hup : s.disk.upper = some L)
+    (p : Path) (m : MNode) (hm : s.mem p = some m) (hmu : m.inUpper = true) (hlo : m.loaded = true)
+    (r : Real) (rest : List Real) (hr : m.reals = r :: rest) (hd : (s.disk.statReal r).isDir = true)
+    (hwh : ∀ c cm, s.mem (c :: p) = some cm → cm.whiteout = true) :
+    ∃ s' L', emptyNodeDirectory p s = .ok () s' ∧ s'.disk.upper = some L' ∧ s'.disk.lowers = s.disk.lowers ∧
+      (∀ c, L' (c :: p) = .absent) ∧ L' p = L p ∧ (∀ q, p.isSuffixOf q = false → L' q = L q) ∧ TreeOK L' ∧
+      (∀ q, p.isSuffixOf q = false → s'.mem q = s.mem q) := by
+  obtain ⟨t, Lt, hrun, hi, hempty⟩ := emptyNodeDirectory_spec hc hup hm hmu hlo hr hd hwh
+  refine ⟨t, Lt, hrun, by rw [hi.disk]; rfl, by rw [hi.disk]; rfl, fun c => ?_, hi.self, hi.out, hi.tree, hi.memOut⟩
+  have := hempty c
+  cases hx : Lt (c :: p) <;> simp_all [Node.isAbsent]
+
+/-- `rmdir_clears_upper_whiteouts`, end to end: RMDIR of a directory that is empty in the view
+    never leaves the cache invalid, and when it succeeds the directory is gone for good — see
+    `deleted_stays_deleted`.  One step of the loop at the level of the host call: -/
 theorem rmdir_clears_upper_whiteouts_step (L : Layer) (p : Path) (c : Name) (h : L (c :: p) = .whiteout) :
     ∃ L', hDeleteWhiteout L p c = .ok L' ∧ L' (c :: p) = .absent ∧ ∀ q, q ≠ c :: p → L' q = L q := by
   refine ⟨L.set (c :: p) .absent, ?_, ?_, ?_⟩
